@@ -327,6 +327,17 @@ func deathSig(prop, stderr string) (sig, detail string, harnessTrouble bool) {
 	return prop + ":crash:" + cls, "worker process died: " + cls, false
 }
 
+// readCtx returns what the worker declared it was doing when it died (workloads
+// whose violations are process deaths write it before every risky call).
+func readCtx(path string) string {
+	b, err := os.ReadFile(path)
+	os.Remove(path)
+	if err != nil {
+		return ""
+	}
+	return strings.TrimSpace(string(b))
+}
+
 func crashClass(stderr string) string {
 	m := reFatal.FindString(stderr)
 	if m == "" {
@@ -394,11 +405,16 @@ func runBatch(b *builder, prop string, bt *batch, tier string, seed uint64, nrun
 				if bt.Progress {
 					args = append(args, "-progress")
 				}
-				po := runProc(bin, bt.Env, tmo, args...)
+				ctxf, _ := os.CreateTemp(b.scratch, "ctx-")
+				ctxPath := ctxf.Name()
+				ctxf.Close()
+				po := runProc(bin, append(append([]string{}, bt.Env...), "VERIF_CTXFILE="+ctxPath), tmo, args...)
+				ctx := readCtx(ctxPath)
 				mu.Lock()
 				next := j.to
 				lastAt := -1
 				gotSum := false
+				summed := 0
 				for _, l := range po.lines {
 					switch l.K {
 					case "stop":
@@ -410,8 +426,10 @@ func runBatch(b *builder, prop string, bt *batch, tier string, seed uint64, nrun
 						if l.Fatal {
 							next = l.I + 1
 						}
-					case "sum":
+					case "end":
 						gotSum = true
+					case "sum":
+						summed += l.Runs
 						res.Runs += l.Runs
 						res.NT += l.NT
 						for _, h := range l.Hashes {
@@ -444,6 +462,13 @@ func runBatch(b *builder, prop string, bt *batch, tier string, seed uint64, nrun
 						}
 					} else if lastAt >= 0 && bt.Progress {
 						sig, det, harness := deathSig(prop, po.stderr)
+						if ctx != "" && !harness && strings.Contains(sig, ":crash:") {
+							det += " (" + sig + ")"
+							sig = ctx
+			if i := strings.Index(ctx, " | "); i >= 0 {
+				sig, det = ctx[:i], det+" "+ctx[i+3:]
+			}
+						}
 						if harness {
 							res.Trouble = append(res.Trouble, fmt.Sprintf("batch %s run %d: %s\n%s", bt.Name, lastAt, det, tail(po.stderr, 3000)))
 						} else {
@@ -451,7 +476,9 @@ func runBatch(b *builder, prop string, bt *batch, tier string, seed uint64, nrun
 								Line: outLine{K: "viol", I: lastAt, Sig: sig, Detail: det}})
 						}
 						next = lastAt + 1
-						res.Runs += lastAt - from + 1
+						if d := lastAt - from + 1 - summed; d > 0 {
+							res.Runs += d
+						}
 					} else {
 						res.Trouble = append(res.Trouble, fmt.Sprintf("batch %s runs %d..%d: worker died without verdict: %v\n%s", bt.Name, from, j.to, po.err, tail(po.stderr, 3000)))
 						next = j.to
@@ -523,9 +550,31 @@ func loadKnown() []knownFinding {
 	return out
 }
 
+// wildMatch: `*` in a known-finding signature matches any run of characters
+// (used where one defect is reachable through many entry points: the finding is
+// identified by the input class, the entry point is the wildcard).
+func wildMatch(pat, s string) bool {
+	parts := strings.Split(pat, "*")
+	if len(parts) == 1 {
+		return pat == s
+	}
+	if !strings.HasPrefix(s, parts[0]) {
+		return false
+	}
+	s = s[len(parts[0]):]
+	for i := 1; i < len(parts)-1; i++ {
+		j := strings.Index(s, parts[i])
+		if j < 0 {
+			return false
+		}
+		s = s[j+len(parts[i]):]
+	}
+	return strings.HasSuffix(s, parts[len(parts)-1])
+}
+
 func matchKnown(ks []knownFinding, prop, sig string) *knownFinding {
 	for i := range ks {
-		if ks[i].Prop == prop && ks[i].Sig == sig {
+		if ks[i].Prop == prop && wildMatch(ks[i].Sig, sig) {
 			return &ks[i]
 		}
 	}
@@ -547,7 +596,11 @@ func (b *builder) replayOnce(rf *ReplayFile, timeout time.Duration) (sig string,
 	f.Write(js)
 	f.Close()
 	defer os.Remove(f.Name())
-	po := runProc(bin, rf.Env, timeout, "-replay", f.Name())
+	ctxf, _ := os.CreateTemp(b.scratch, "ctx-")
+	ctxPath := ctxf.Name()
+	ctxf.Close()
+	po := runProc(bin, append(append([]string{}, rf.Env...), "VERIF_CTXFILE="+ctxPath), timeout, "-replay", f.Name())
+	ctx := readCtx(ctxPath)
 	at := false
 	for _, l := range po.lines {
 		if l.K == "at" {
@@ -565,6 +618,13 @@ func (b *builder) replayOnce(rf *ReplayFile, timeout time.Duration) (sig string,
 	}
 	if at {
 		sig, det, harness := deathSig(rf.Property, po.stderr)
+		if ctx != "" && !harness && strings.Contains(sig, ":crash:") {
+			det += " (" + sig + ")"
+			sig = ctx
+			if i := strings.Index(ctx, " | "); i >= 0 {
+				sig, det = ctx[:i], det+" "+ctx[i+3:]
+			}
+		}
 		if harness {
 			return "", "", nil, det + "\n" + tail(po.stderr, 2000)
 		}
